@@ -157,8 +157,6 @@ w64_open	(SF_PRIVATE *psf)
 			*/
 			psf->filelength = SF_COUNT_MAX - 10000 ;
 			psf->datalength = psf->filelength ;
-			if (psf->sf.frames <= 0)
-				psf->sf.frames = (psf->blockwidth) ? psf->filelength / psf->blockwidth : psf->filelength ;
 			} ;
 
 		if ((error = w64_write_header (psf, SF_FALSE)))
